@@ -97,12 +97,26 @@ func init() {
 	})
 	reg(vp+"Choice", func(m *Machine, fr *frame, args []Value) Value {
 		t, _ := rangeVar(m, args)
+		if cn, ok := args[1].(uint64); ok && int64(cn) >= 1 && int64(cn) <= 256 {
+			// concrete range over a fresh unknown: every value is feasible,
+			// so split without consulting the solver
+			k := uint64(m.pick(int(cn), "Choice "+args[0].(string)))
+			m.assertPC(m.tf.Eq(t, m.tf.BV(k, 64)))
+			return k
+		}
 		n := m.scalarTerm(args[1], 64)
 		m.assume(m.tf.And(m.tf.Cmp("bvsle", m.tf.BV(0, 64), t), m.tf.Cmp("bvslt", t, n)))
 		return m.concretize(t, "Choice "+args[0].(string))
 	})
 	reg(vp+"Len", func(m *Machine, fr *frame, args []Value) Value {
 		t, _ := rangeVar(m, args)
+		if clo, ok := args[1].(uint64); ok {
+			if chi, ok := args[2].(uint64); ok && int64(chi) >= int64(clo) && int64(chi)-int64(clo) < 256 {
+				k := clo + uint64(m.pick(int(int64(chi)-int64(clo))+1, "Len "+args[0].(string)))
+				m.assertPC(m.tf.Eq(t, m.tf.BV(k, 64)))
+				return k
+			}
+		}
 		lo, hi := m.scalarTerm(args[1], 64), m.scalarTerm(args[2], 64)
 		m.assume(m.tf.And(m.tf.Cmp("bvsle", lo, t), m.tf.Cmp("bvsle", t, hi)))
 		return m.concretize(t, "Len "+args[0].(string))
@@ -343,8 +357,17 @@ func (m *Machine) violation(label, kind, msg string) {
 	mo := m.model
 	if mo == nil {
 		r, x := m.solver.Check(nil, true)
-		if r == "sat" {
+		switch r {
+		case "sat":
 			mo = x
+		case "unsat":
+			// the path was kept after an unknown feasibility answer and is
+			// in fact infeasible: nothing to report
+			panic(pathEnd{kind: "infeasible"})
+		default:
+			if len(m.nondets) > 0 {
+				panic(pathEnd{kind: "unknown", msg: "assertion " + label + " fails on a path whose feasibility the solver could not decide"})
+			}
 		}
 	}
 	if mo != nil {
